@@ -1,3 +1,6 @@
 import LouModel
 import LouProofs.Lemmas.PosMap
 import LouProofs.C07
+import LouProofs.Lemmas.Meta
+import LouProofs.Lemmas.MetaScore
+import LouProofs.C18
